@@ -423,4 +423,96 @@ pub fn generate(seed: u64, tier: &str, sink: &mut Sink) {
             }
         }
     }
+    coded_frames_cut(&mut rng, thorough, sink);
+}
+
+/// The framing layer reports a frame that was cut; a content decoder sits between it and the caller. A gzip- or
+/// deflate-coded body whose FRAME is incomplete — the connection closed before the Content-Length octets
+/// arrived (at the very first of them included), inside the first chunk, inside a chunk-size line, before the
+/// last chunk — is never reported as cleanly finished either, and what was handed out is a prefix of the
+/// decoded payload (seed C02-seed11: the decoder layer turned the frame's UnexpectedEof into Ok(0) as long as
+/// the decoder had not been fed).
+fn coded_frames_cut(rng: &mut Rng, thorough: bool, sink: &mut Sink) {
+    use crate::delivery;
+    let n = if thorough { 4000 } else { 400 };
+    for i in 0..n {
+        let len = *rng.pick(&[0usize, 1, 20, 300, 5000, 70_000]);
+        let data: Vec<u8> = (0..len).map(|k| if rng.chance(1, 3) { rng.below(256) as u8 } else { b"abcdefgh "[k % 9] }).collect();
+        let gz = i % 2 == 0;
+        let coded = if gz { crate::p_c06::gzip(&data, rng.below(10) as u32, rng) } else { crate::p_c06::deflate(&data, rng.below(10) as u32) };
+        let mut head = b"HTTP/1.1 200 OK\r\n".to_vec();
+        head.extend_from_slice(if gz { b"Content-Encoding: gzip\r\n" } else { b"Content-Encoding: deflate\r\n" });
+        let framing = rng.below(3);
+        let mut body = vec![];
+        let mut first_chunk_end = 0usize;
+        match framing {
+            0 => {
+                head.extend_from_slice(format!("Content-Length: {}\r\n", coded.len()).as_bytes());
+                body = coded.clone();
+            }
+            _ => {
+                head.extend_from_slice(b"Transfer-Encoding: chunked\r\n");
+                // one chunk for the whole stream (what most servers send for a small response), or several
+                let pieces: Vec<&[u8]> = if framing == 1 { vec![&coded[..]] } else { coded.chunks(rng.range(1, 4000) as usize).collect() };
+                for (k, pc) in pieces.iter().enumerate() {
+                    body.extend_from_slice(format!("{:x}\r\n", pc.len()).as_bytes());
+                    body.extend_from_slice(pc);
+                    body.extend_from_slice(b"\r\n");
+                    if k == 0 {
+                        first_chunk_end = body.len();
+                    }
+                }
+                body.extend_from_slice(b"0\r\n\r\n");
+            }
+        }
+        head.extend_from_slice(b"\r\n");
+        // where the connection closes: before the first body byte, inside the first chunk (or the first octets),
+        // anywhere, just before the end
+        let cut = match rng.below(5) {
+            0 => 0,
+            1 => rng.below(first_chunk_end.max(body.len().min(16)).max(1) as u64) as usize,
+            2 => body.len() - 1,
+            3 => body.len().saturating_sub(1 + rng.below(5) as usize),
+            _ => rng.below(body.len() as u64) as usize,
+        };
+        let mut wire = head.clone();
+        wire.extend_from_slice(&body[..cut]);
+        let (segs, segname) = crate::respgen::segment(rng, &wire, &crate::respgen::interesting_offsets(&wire, head.len()));
+        let reads = match rng.below(4) {
+            0 => Reads::Drain(crate::resp::DRAIN_BYTES),
+            1 => Reads::Drain(8192),
+            // (every read may hand out as little as one segment's worth)
+            2 => Reads::Sizes(vec![1 << 16; segs.len() + 12 + len / 8192]),
+            _ => Reads::Sizes(vec![100; segs.len() + len / 100 + 12]),
+        };
+        let case = RespCase { method: "GET".into(), max_headers: 100, segs, reads };
+        let out = run_resp(&case);
+        let tag = format!("{}-frame-cut", if gz { "gzip" } else { "deflate" });
+        let o: Result<(), (String, String)> = (|| {
+            match &out.head {
+                HeadOut::Ok(200) => {}
+                HeadOut::Panic => return Err(("panic".into(), "panic in send()".into())),
+                // (the gzip decoder reads the stream's header eagerly: an error in send() is a refusal, too)
+                HeadOut::Err(_) => return Ok(()),
+                h => return Err((format!("head-{}", tag), format!("{:?}", h))),
+            }
+            let exp = Decoded { payload: data.clone(), end: End::Truncated };
+            let upto = out.events.iter().position(|e| matches!(e, Ev::Err(_) | Ev::Blocked)).map(|i| i + 1).unwrap_or(out.events.len());
+            let reads_upto = match &case.reads {
+                Reads::Sizes(ns) => Reads::Sizes(ns[..upto.min(ns.len())].to_vec()),
+                r => r.clone(),
+            };
+            let d = delivery::check(&exp, &reads_upto, &out.events[..upto], &tag)?;
+            if !d.saw_err {
+                return Err((format!("cut-unreported-{}", tag), format!("the frame was cut after {} of {} body octets and no read reported an error; delivered {} of {} decoded bytes", cut, body.len(), d.got.len(), data.len())));
+            }
+            Ok(())
+        })();
+        sink.push(Case {
+            tags: vec![format!("coding={}", if gz { "gzip" } else { "deflate" }), "mut=cut".into(), format!("framing={}", ["length", "chunked-one", "chunked-many"][framing as usize]), format!("cut={}", if cut == 0 { "at-body-start" } else if framing != 0 && cut < first_chunk_end { "in-first-chunk" } else { "later" }), format!("seg={}", segname)],
+            op: case.op_line(),
+            impl_line: out.line(),
+            oracle: o,
+        });
+    }
 }
